@@ -84,3 +84,16 @@ fn c13_sibling_and_object_value() {
     std::mem::forget(m.insert(k, obj1("z".to_string(), jnum(1))));
     check(JValue::Object(m), reserved);
 }
+
+/// {"x": {"z": 1}, k: 1}  — reserved name AFTER a container-valued sibling
+#[kani::proof]
+#[kani::unwind(3)]
+#[kani::stub(alloc::fmt::format, fmt_stub)]
+fn c13_after_container_sibling() {
+    let k = sym_name();
+    let reserved = is_reserved(&k);
+    let mut m = JMap::new();
+    put(&mut m, "x", obj1("z".to_string(), jnum(1)));
+    std::mem::forget(m.insert(k, jnum(1)));
+    check(JValue::Object(m), reserved);
+}
